@@ -59,7 +59,7 @@ struct Owners
   void recycle(int j)
   {
     for (int k = 0; k < NOWN; k++) {
-      if (k != j && exists[k]) {
+      if (k != j && exists[k] && !at(k).is_unregistered()) {
         std::memcpy(store[j], store[k], sizeof(AP));
         return;
       }
